@@ -10,6 +10,12 @@ NOTE = ("Trusted: clang parse = g++ parse; the y2c emitter; ystub_pre.h models (
 P = {
  'C17': (True, "Every public operation of node_version64_body / node_version64 carries a contract discharged for all 2^64 words, both for the sequential memory model and under arbitrary interference on the word (ghost flag left unconstrained): setters change exactly their field, counters wrap in 29 bits without carry, unlock = exactly one CAS with new == f_unlock(old), lock = one CAS locked 0->1 never attempted on a word observed locked, a stable version is a loaded word that is neither locked nor dirty; lemmas L1/L2 (mutual exclusion, equal stable words => no completed insert/split modulo 2^29) are loop-free obligations over the same specs. This is the whole property except ABA after exactly k*2^29 events.",
          "Undecided: wrap-around ABA after exactly k*2^29 events; termination of spin loops.", '5 (C17)'),
+ 'C19': (True, "Every operation of permutation (insert_rank, delete_rank, get_empty_slot, split_dest, get_cnk, get_index_of_rank, get_lowest_key_pos, set_cnk, init, set_body/get_body, constructors) carries a contract against a nibble-array specification, discharged for all 64-bit words satisfying perm_valid and all ranks/slots: insert shifts exactly the later ranks and places the slot, delete closes the gap, the reported free slot is < 15 and unused (cardinality invariant, no pigeonhole query), split_dest is the identity, validity is preserved, no shift >= 64, and every mutator performs exactly one store which is its last atomic event (single publication).",
+         "Undecided: permutation::rearrange / border_node::permutation_rearrange (dead code, uses std::sort) is not emitted.", '5 (C19)'),
+ 'C18': (True, "One specification order S_cmp (bytewise slice order, then normalised length). Lemma obligations for all pairs/triples of valid entries: irreflexive, antisymmetric, transitive, total, equal to lexicographic byte-string order with a proper prefix first, zero bytes/length corner cases. Site obligations: key_tuple operators (<,>,<=,>=,==,!=, min, max) equal S_cmp on valid entries; leaf lookup (get_lv_of_without_lock) returns the slot of the entry with S_cmp == 0 and compute_rank_if_insert returns the number of smaller entries, for every well-formed 15-slot leaf (complete unwinding by the fan-out constant).",
+         "Not yet under contract in this tree (listed as undecided, not assumed): interior routing/insert, the two split side decisions, delete_of's equality test, the slicing blocks, the cursor's inline tuple tests, permutation::rearrange.", '5 (C18)'),
+ 'C15': (True, "value::create_value<false>/<true>, delete_value, get_body, get_len, get_gc_info, need_delete, remove_delete_flag, is_value_ptr and link_or_value::{get_value, get_next_layer, set_value, set_next_layer, init_lv} carry contracts discharged for all lengths with v_len + max(a,8) < 2^32 and all power-of-two alignments 1..4096: allocation triple, header, get_len(create) == v_len, get_body(create) aligned to the requested alignment and inside the block, bytes equal (ghost index), tag bits, inline values by value, set_value = exactly one store with created_value_ptr designating the stored copy and the old block handed out (not freed) or freed once, readers derive the pointer from one loaded word under arbitrary interference.",
+         "Undecided: the reader side inside get/scan (single-load hand-out, see C01/C04) and put's overwrite path are not yet under contract; lifetime of the old block while a reader uses it is C07.", '5 (C15)'),
 }
 NA = {
  'C06': "schedule-quantified: the order of four loads at each node boundary against concurrent inserts is not expressible as a pre/postcondition of one call; bounded thread exploration would be a different technique family (DESIGN 6)",
